@@ -254,6 +254,13 @@ def build_case(rng, kind, how, n):
     return dict(kind="genbank", how="gb", texts=texts, intent=intent)
 
 
+def _one_block(case):
+    """block-splitting of GFF loads is probed by run_case; everything else loads the file in one block"""
+    if case["how"] == "gff":
+        case["lines_per_block"] = None
+    return case
+
+
 def _clean(r):
     return {k: r.get(k) for k in ("seqid", "biotype", "name", "strand", "attrs", "spans", "start", "stop")}
 
@@ -449,7 +456,7 @@ def _ids_split_over_blocks(case):
 # --------------------------------------------------------------------------
 # multiset preservation: union / update / subset / copies
 # --------------------------------------------------------------------------
-def copy_db(db, how, scratch, tag):
+def copy_db(db, how, scratch, tag, commit_first=False):
     import copy
     import pickle
 
@@ -463,8 +470,38 @@ def copy_db(db, how, scratch, tag):
         return deserialise_object(db.to_json())
     _COPY_N[0] += 1
     p = scratch / f"c17_w_{tag}_{_COPY_N[0]}.sqlitedb"  # never reuse a file another connection may hold open
-    db.write(p)
+    if commit_first:
+        db.db.commit()
+    _write_with_timeout(db, p)
     return type(db)(source=str(p))
+
+
+class WriteBlocked(Exception):
+    pass
+
+
+def _write_with_timeout(db, p, timeout=2.5):
+    """`write` can spin forever inside sqlite3's backup loop; observe that instead of hanging the check"""
+    import threading
+
+    err = []
+
+    def work():
+        try:
+            db.write(p)
+        except Exception as e:  # noqa: BLE001
+            err.append(e)
+
+    th = threading.Thread(target=work, daemon=True)
+    th.start()
+    th.join(timeout)
+    if th.is_alive():
+        in_tx = db.db.in_transaction
+        db.db.commit()  # lets the blocked backup finish so the thread ends
+        th.join(20)
+        raise WriteBlocked(f"write() did not return within {timeout}s (connection in_transaction={in_tx})")
+    if err:
+        raise err[0]
 
 
 COPIES = ["deepcopy", "pickle", "json", "write"]
@@ -522,6 +559,10 @@ def run_multiset_case(mc, scratch, out=None, tag="ms"):
                 try:
                     a.update(b, seqids=seqids)
                     got = all_recs(a)
+                    if len(op) > 2 and ok:
+                        # ... and the updated db must survive a copy / serialisation / write+reload
+                        sig = f"update+copy:{op[2]}"
+                        got = all_recs(copy_db(a, op[2], scratch, tag))
                 except TypeError:
                     got = "TypeError"
     except Exception as e:  # noqa: BLE001
@@ -570,7 +611,7 @@ def spec_check(ctx, budget):
     n_ms = 12 * budget
     for i in range(n_ms):
         ka, ha = rng.choice(plans)
-        a = build_case(rng, ka, ha, rng.choice([0, 1, 2, 3, 5]))
+        a = _one_block(build_case(rng, ka, ha, rng.choice([0, 1, 2, 3, 5])))
         r = rng.random()
         if r < 0.3:
             mc = dict(a=a, b=None, op=["copy", COPIES[i % len(COPIES)]])
@@ -579,16 +620,19 @@ def spec_check(ctx, budget):
             mc = dict(a=a, b=None, op=["subset", rng.choice(qs)])
         else:
             kb, hb = rng.choice(plans)
-            b = build_case(rng, kb, hb, rng.choice([0, 1, 2, 4]))
+            b = _one_block(build_case(rng, kb, hb, rng.choice([0, 1, 2, 4])))
             if rng.random() < 0.5:
                 mc = dict(a=a, b=b, op=["union"])
             else:
-                mc = dict(a=a, b=b, op=["update", rng.choice([None, None, "s1", ["s1", "s2"], ["chrx"]])])
+                op = ["update", rng.choice([None, None, "s1", ["s1", "s2"], ["chrx"]])]
+                if rng.random() < 0.6:
+                    op.append(COPIES[i % len(COPIES)])
+                mc = dict(a=a, b=b, op=op)
         for what, inp, want, got, sig in run_multiset_case(mc, scratch, out, tag=f"m{i}"):
             add_failure(out, "spec", what, inp, want, got, sig=sig)
     # subset over every subset of arguments x window mode on one db per class (the cross product the property names)
     for kind, how in plans[:3] + plans[3:4] + plans[5:]:
-        a = build_case(rng, kind, how, 5)
+        a = _one_block(build_case(rng, kind, how, 5))
         for q in gen_queries(rng, a["intent"], 2):
             mc = dict(a=a, b=None, op=["subset", q])
             for what, inp, want, got, sig in run_multiset_case(mc, scratch, out, tag="sub"):
@@ -798,10 +842,37 @@ def correspondence(ctx):
         out["evaluations"] += 1
         mod = srt(canon_rec(r, attrs=True) for r in rep)
         bump(out, "gffload_blocks", "split-id" if _ids_split_over_blocks(case) else "plain")
-        if mod != real:
+        if mod != real and _ids_split_over_blocks(case) and real == srt(canon_rec(r, attrs=True) for r in case["intent"]):
+            # the model mirrors the duplicate-row behaviour of the unrepaired code on this branch; a tree that
+            # loads the intended records here is right (spec_check decides), not a broken tie
+            bump(out, "gffload_blocks", "split-id:real-matches-spec-not-model")
+        elif mod != real:
             add_failure(out, "corr", "loadGffBlocks model differs from load_annotations", dict(text=case["text"], lines_per_block=case["lines_per_block"]), mod, real, confirmed=False)
         else:
             out["nontrivial"].add(("gffload", case["text"], case["lines_per_block"]))
+
+    # ---- subset with a window and no column condition: the model says OperationalError (mirrors the code)
+    reqs, reals = [], []
+    for kind in KINDS:
+        case = build_case(rng, kind, "add", 3)
+        db = build_db(case, scratch, "so")
+        dj = db_json(db)
+        for q in [dict(start=0, stop=50), dict(start=3), dict(stop=9, allow_partial=True), dict(start=2, stop=4, allow_partial=True)]:
+            mops = [["new", kind]] + [["addtable", 0, "user", r] for r in dj["tables"]["user"]] + [["subset", 0, q]]
+            reqs.append(("ops", dict(ops=mops)))
+            try:
+                got = srt(canon_rec(r) for r in db.subset(**q).get_records_matching())
+            except sqlite3.OperationalError:
+                got = "OperationalError"
+            reals.append((got, srt(canon_rec(r) for r in oracle_select(dj["tables"]["user"], q))))
+    for (got, spec), rep in zip(reals, ctx.driver.batch(reqs)):
+        out["evaluations"] += 1
+        if rep.get("err") == "OperationalError" and got == "OperationalError":
+            bump(out, "subset_window_only", "raises-as-modelled")
+        elif rep.get("err") == "OperationalError" and got == spec:
+            bump(out, "subset_window_only", "real-matches-spec-not-model")
+        else:
+            add_failure(out, "corr", "subset(window only): model and real disagree", dict(), rep, got, confirmed=False)
 
     # ---- op histories
     _op_histories(ctx, out, rng, scratch)
@@ -858,7 +929,7 @@ def _op_histories(ctx, out, rng, scratch):
                     dbs.append(dbs[i].union(dbs[k]))
                 elif r < 0.8:
                     recs = [x for t in db_json(dbs[i])["tables"].values() for x in t]
-                    q = rng.choice(gen_queries(rng, recs, 2))
+                    q = rng.choice([x for x in gen_queries(rng, recs, 2) if q_cols(x) != "-" or q_mode(x) == "none"])
                     mops.append(["subset", i, q])
                     log.append(f"subset {q_mode(q)} {q_cols(q)}")
                     dbs.append(dbs[i].subset(**{a: b for a, b in q.items() if b is not None}))
@@ -866,7 +937,8 @@ def _op_histories(ctx, out, rng, scratch):
                     how = rng.choice(COPIES)
                     mops.append(["copy", i])
                     log.append(f"copy {how}")
-                    dbs.append(copy_db(dbs[i], how, scratch, f"h{h}"))
+                    # the model has no notion of open transactions: commit first (the write-after-update hang is spec_check's job)
+                    dbs.append(copy_db(dbs[i], how, scratch, f"h{h}", commit_first=True))
             except TypeError:
                 err = "TypeError"
                 break
